@@ -179,3 +179,88 @@ func ZZ_C10_read_is_a_value() {
 	c1, ok1 := read(1)
 	zz.Assertf(ok0 && ok1 && c0 == wantC0 && c1 == wantC1, "C10.read-is-a-value/stores-reach-the-addressed-element/"+id, src)
 }
+
+// ZZ_C10_append_overlapping: `x + y` and `x += y` when both operands are views
+// of one backing array (x with spare capacity): the result is what Go's
+// append(x, y...) gives - the right operand's elements as they were when the
+// operation started, also where the copy runs over them.
+func ZZ_C10_append_overlapping() {
+	n := 3 + zz.Choose(2)
+	typed := zz.Choose(2) == 1
+	vals := make([]int64, n)
+	for i := range vals {
+		vals[i] = zz.Int64()
+	}
+	lo := zz.Choose(2) // x = a[lo:lo+xl]
+	xl := zz.Choose(3) // 0..2
+	yb := zz.Choose(n) // y = a[yb:ye]
+	ye := yb + zz.Choose(n-yb+1)
+	if lo+xl > n {
+		return
+	}
+	e := env.NewEnv()
+	model := make([]int64, n)
+	copy(model, vals)
+	if typed {
+		a := make([]int64, n)
+		copy(a, vals)
+		e.Define("a", a)
+	} else {
+		a := make([]interface{}, n)
+		for i := range a {
+			a[i] = vals[i]
+		}
+		e.Define("a", a)
+	}
+	e.Define("lo", int64(lo))
+	e.Define("xe", int64(lo+xl))
+	e.Define("yb", int64(yb))
+	e.Define("ye", int64(ye))
+	op := zz.Choose(2)
+	src := []string{"x = a[lo:xe]; y = a[yb:ye]; r = x + y; [r, a]", "x = a[lo:xe]; y = a[yb:ye]; x += y; [x, a]"}[op]
+	v, err := Execute(e, &Options{Debug: false}, src)
+	id := []string{"[]interface{}", "[]int64"}[zz.Ite(typed, 1, 0)] + "/" + []string{"+", "+="}[op]
+	zz.Assertf(err == nil, "C10.append-overlapping/no-error/"+id, src)
+	if err != nil {
+		return
+	}
+	// Go model
+	mx := model[lo : lo+xl]
+	my := model[yb:ye]
+	want := append(mx, my...)
+	l, ok := v.([]interface{})
+	zz.Assert(ok && len(l) == 2, "C10.append-overlapping/result-shape/"+id)
+	if !ok || len(l) != 2 {
+		return
+	}
+	get := func(c interface{}, i int) (int64, bool) {
+		switch s := c.(type) {
+		case []interface{}:
+			if i >= len(s) {
+				return 0, false
+			}
+			x, ok := s[i].(int64)
+			return x, ok
+		case []int64:
+			if i >= len(s) {
+				return 0, false
+			}
+			return s[i], true
+		}
+		return 0, false
+	}
+	length := func(c interface{}) int {
+		switch s := c.(type) {
+		case []interface{}:
+			return len(s)
+		case []int64:
+			return len(s)
+		}
+		return -1
+	}
+	zz.Assert(length(l[0]) == len(want), "C10.append-overlapping/length/"+id)
+	for i := range want {
+		x, ok := get(l[0], i)
+		zz.Assert(ok && x == want[i], "C10.append-overlapping/elements-as-go-append/"+id)
+	}
+}
